@@ -79,8 +79,14 @@ namespace nmtools::index
             at(result,i) = idx;
         }
 
-        at(result,axis1) = at(indices,meta::ct_v<-1>);
-        at(result,axis2) = at(indices,meta::ct_v<-1>) + offset;
+        // numpy: offset >= 0 designates a[i, i+offset], offset < 0 designates a[i-offset, i]
+        if (nm_index_t(offset) < 0) {
+            at(result,axis1) = at(indices,meta::ct_v<-1>) + nm_size_t(-nm_index_t(offset));
+            at(result,axis2) = at(indices,meta::ct_v<-1>);
+        } else {
+            at(result,axis1) = at(indices,meta::ct_v<-1>);
+            at(result,axis2) = at(indices,meta::ct_v<-1>) + nm_size_t(nm_index_t(offset));
+        }
 
         return result;
     }
